@@ -399,6 +399,8 @@ func (w *world) replyFor(node string, a [][]byte) []byte {
 	switch {
 	case cmd == "cluster":
 		return []byte("$0\r\n\r\n")
+	case cmd == "asking":
+		return []byte("+OK\r\n")
 	case strings.Contains(key, "err"):
 		return []byte("-ERR bad " + strings.ReplaceAll(key, "\r\n", "") + "\r\n")
 	case cmd == "mget" && anyKeyContains(a[1:], "err"):
